@@ -15,7 +15,8 @@ def matches(c):
 
 LEVEL_TEXT = ("Lean theorems: parse(write a) = a (names, order, residues, length, detected alphabet) for every "
               "representable alignment, every wrap width w > 0, every number of rows and every length, by induction "
-              "over rows and over chunks - complete for FASTA (roundtrip_fasta) and Stockholm (roundtrip_stockholm); executable writer + parser models of all five "
+              "over rows and over chunks - complete for FASTA (roundtrip_fasta), Stockholm (roundtrip_stockholm) and Nexus (roundtrip_nexus, "
+              "incl. decimal print/parse of the header counts and the datatype/alphabet hand-over); executable writer + parser models of all five "
               "formats (Phylip with its 8 option combinations, multi-alignment streams and auto-detection as folds over them) "
               "tied to /repo by constant regeneration (line / block widths) and differential correspondence of writer bytes "
               "and parser results; the round-trip predicate is evaluated on the implementation for every format x option, "
@@ -23,12 +24,12 @@ LEVEL_TEXT = ("Lean theorems: parse(write a) = a (names, order, residues, length
               "false for the unrepaired parser (roundtrip_nexus_counterexample: rows spelling a reserved word) and holds on "
               "that witness for the repaired one (roundtrip_nexus_patched_witness).")
 LEVEL_NOTE = ("Trusted: Lean kernel; harness; compress/gzip, xz, bufio, the file system (file round trips are observed on "
-              "the implementation and compared with the in-memory model). Round-trip theorems for Phylip, Nexus, Clustal, "
+              "the implementation and compared with the in-memory model). Round-trip theorems for Phylip, Clustal, "
               "the multi-Phylip stream and auto-detection are open (models + correspondence only): see evidence 'partial'.")
 TECHNIQUE = "Lean 4 proof (induction over rows / chunks for every width) + differential correspondence"
 LEAN_MODULES = ["Gv.Props.C02"]
 REQUIRED_THEOREMS = ["Gv.Props.C02." + n for n in ["roundtrip_fasta", "roundtrip_fasta_go", "roundtrip_stockholm",
-                                                     "roundtrip_nexus_counterexample", "roundtrip_nexus_patched_witness",
+                                                     "roundtrip_nexus", "roundtrip_nexus_counterexample", "roundtrip_nexus_patched_witness",
                                                      "autodetect_selects_written_format"]]
 TRUSTED = ["compress/gzip, github.com/ulikunitz/xz, bufio, os (temp files): .gz/.xz round trips are observed, not modelled",
            "version.Version of the harness build is the literal 'Unset' (Clustal header line)"]
@@ -43,14 +44,14 @@ RULE = ("alignments of 1..8 rows, L in {1,9,10,11,49,50,51,59,60,61,79,80,81,119
         "files, rows spelling Nexus reserved words; non-trivial = L within 1 of a multiple of 10/50/60/80 or more than one block")
 
 PARTIAL = [
-    "FASTA: complete (roundtrip_fasta: every width w > 0, every alignment, every duplicate policy, with and without the patch)",
-    "Stockholm: complete (roundtrip_stockholm: every alignment, every duplicate policy, with and without the proposed guards)",
-    "Phylip (strict / one-line / no-block), Clustal: writer + parser models with byte-exact correspondence; "
-    "round-trip theorems stated in Props/C02.lean and OPEN",
-    "Nexus: model + correspondence; the round trip was FALSE for the unrepaired parser (rows spelling a reserved word, "
-    "roundtrip_nexus_counterexample; repaired in /repo 2d2dfb5, the model follows through the regenerated fact); the "
-    "universal round-trip theorem for the repaired parser is open",
+    "FASTA: complete (roundtrip_fasta: every width w > 0, every alignment, every duplicate policy, with and without the repair)",
+    "Stockholm: complete (roundtrip_stockholm: every alignment, every duplicate policy, with and without the repairs)",
+    "Nexus: complete for the repaired parser (roundtrip_nexus: every representable alignment whose counts fit Go's int; rows "
+    "spelling a reserved word need the keyword-row repair 2d2dfb5, for the unrepaired parser they are the proved "
+    "counter-example roundtrip_nexus_counterexample)",
     "auto-detection: proved (autodetect_selects_written_format: first byte of every writer's output)",
+    "Phylip (strict / one-line / no-block), Clustal: writer + parser models with byte-exact correspondence on every run; "
+    "round-trip theorems stated in Props/C02.lean and OPEN (interleaved blocks of 60/10 and 50 residues)",
     "multi-Phylip stream and chain-of-formats: modelled in the oracle (folds over the models), theorems open",
     ".gz/.xz files: observed on the implementation only (compression is a trusted external)",
 ]
